@@ -744,6 +744,98 @@ fn repeats(run: &mut Run) -> u64 {
     n
 }
 
+/// a stage that draws `n` bytes through `fill_bytes` (a generator's byte interface is part of the shared
+/// stream: what a stage consumes there decides what the stages after it see) and then one word
+struct ByteStage(usize);
+impl Composable for ByteStage {}
+impl Operator<u64> for ByteStage {
+    type Output = u64;
+    type Error = LeafErr;
+    fn apply<R: Rng + ?Sized>(&self, x: u64, rng: &mut R) -> Result<u64, LeafErr> {
+        let mut buf = vec![0u8; self.0];
+        rng.fill_bytes(&mut buf);
+        let sum: u64 = buf.iter().map(|b| *b as u64).sum();
+        Ok(x.wrapping_mul(31).wrapping_add(sum).wrapping_mul(31).wrapping_add(rng.next_u64()))
+    }
+}
+
+/// Compositions containing a byte-drawing stage, plain and with that stage (or the whole composition) behind
+/// the type-erased forms, on the position-counting tape and on a generator whose byte interface is not its
+/// word interface: same value, same final stream position.
+fn byte_draws(run: &mut Run) -> u64 {
+    /// words count 1, 2, 3, ...; bytes come from a separate counter and cost one position each
+    #[derive(Default, Clone)]
+    struct SplitRng {
+        words: u64,
+        bytes: u64,
+    }
+    impl rand::RngCore for SplitRng {
+        fn next_u32(&mut self) -> u32 {
+            self.words += 1;
+            (self.words * 7) as u32
+        }
+        fn next_u64(&mut self) -> u64 {
+            self.words += 1;
+            self.words * 1_000_003
+        }
+        fn fill_bytes(&mut self, dst: &mut [u8]) {
+            for b in dst {
+                self.bytes += 1;
+                *b = (self.bytes * 13) as u8;
+            }
+        }
+    }
+    let mut n = 0u64;
+    for len in [0usize, 1, 2, 3, 4, 5, 7, 8, 9, 12, 13, 16, 17, 31, 33, 64, 65] {
+        n += 1;
+        let run_all = |which: usize| -> (Vec<Result<u64, String>>, (u64, u64, u64)) {
+            let mut tape = TapeRng::default();
+            let mut split = SplitRng::default();
+            let mut out = vec![];
+            macro_rules! go {
+                ($op:expr) => {{
+                    let op = $op;
+                    out.push(op.apply(5u64, &mut tape).map_err(|_| "failed".to_string()));
+                    out.push(op.apply(5u64, &mut split).map_err(|_| "failed".to_string()));
+                }};
+            }
+            match which {
+                // plain
+                0 => go!(ByteStage(len).then(Part("g", false)).then(ByteStage(3))),
+                // the byte-drawing stage boxed
+                1 => {
+                    let b: Box<dyn DynOperator<u64, LeafErr, Output = u64>> = Box::new(ByteStage(len));
+                    go!(b.then(Part("g", false)).then(ByteStage(3)))
+                }
+                // the whole composition behind Arc<dyn ..>
+                2 => {
+                    let a: std::sync::Arc<dyn DynOperator<u64, Output = u64>> = std::sync::Arc::new(ByteStage(len).then(Part("g", false)).then(ByteStage(3)));
+                    go!(a)
+                }
+                // behind a reference to the erased form, with the default boxed error
+                _ => {
+                    let inner = ByteStage(len).then(Part("g", false)).then(ByteStage(3));
+                    let r: &dyn DynOperator<u64, Output = u64> = &inner;
+                    go!(r)
+                }
+            }
+            (out, (tape.pos, split.words, split.bytes))
+        };
+        let plain = run_all(0);
+        for which in 1..=3 {
+            let other = run_all(which);
+            if other != plain {
+                run.violation(
+                    "compose/erased-byte-draws".to_string(),
+                    format!("a stage drawing {len} bytes, then a word-drawing stage, then a stage drawing 3 bytes: plain composition gives {:?} leaving the generators at {:?}; with {} it gives {:?} at {:?} (tape position; words, bytes of the split generator)", plain.0, plain.1, ["", "the first stage boxed", "the composition behind Arc<dyn DynOperator>", "the composition behind &dyn DynOperator"][which], other.0, other.1),
+                    json!({"check":"C14","scenario":"byte-draws"}),
+                );
+                break;
+            }
+        }
+    }
+    n
+}
 /// For compositions whose failing part sits at nesting depth d: the chain of `source()` from the reported
 /// error has d + 1 links and ends at the failing part's own error; every link has a non-empty message; the
 /// same through `Box<dyn Error>`.
@@ -897,7 +989,7 @@ pub fn run(run: &mut Run) {
     for (k, w, r) in viols {
         run.violation(k, w, r);
     }
-    let w = wrappers(run) + error_chains(run) + repeats(run);
+    let w = wrappers(run) + error_chains(run) + repeats(run) + byte_draws(run);
     run.states = ts.len() as u64;
     run.evaluations = total_plans + w;
     run.transitions = run.evaluations;
@@ -962,10 +1054,11 @@ pub fn replay(v: &Value) -> bool {
         println!("wrapper checks: {n} violations");
         return n == 0;
     }
-    if v["scenario"] == json!("error-chain") || v["scenario"] == json!("repeat") {
+    if v["scenario"] == json!("error-chain") || v["scenario"] == json!("repeat") || v["scenario"] == json!("byte-draws") {
         let mut r = Run::new("C14", "quick");
         error_chains(&mut r);
         repeats(&mut r);
+        byte_draws(&mut r);
         let g = r.violations.lock().unwrap();
         for (k, x) in g.iter() {
             println!("MISMATCH [{k}]: {}", x.what);
